@@ -934,7 +934,11 @@ class FilePath(AbstractFilePath[AnyStr]):
         ourPath = self._getPathAsSameTypeAs(path)
 
         newpath = abspath(joinpath(ourPath, normpath(path)))
-        if not newpath.startswith(ourPath):
+        # Compare against the path with a trailing separator, so that a sibling
+        # whose name merely starts with our name is not taken for a descendant.
+        if newpath != ourPath and not newpath.startswith(
+            joinpath(ourPath, ourPath[:0])
+        ):
             raise InsecurePath(f"{newpath!r} is not a child of {ourPath!r}")
         return self.clonePath(newpath)
 
